@@ -10,6 +10,7 @@ import (
 	"os"
 	"path/filepath"
 	"sort"
+	"strings"
 	"testing"
 
 	"verifharness/internal/chainkit"
@@ -20,8 +21,11 @@ import (
 	"github.com/nspcc-dev/neo-go/pkg/core"
 	"github.com/nspcc-dev/neo-go/pkg/core/block"
 	"github.com/nspcc-dev/neo-go/pkg/core/mpt"
+	"github.com/nspcc-dev/neo-go/pkg/core/native/nativenames"
 	"github.com/nspcc-dev/neo-go/pkg/core/storage"
 	"github.com/nspcc-dev/neo-go/pkg/core/storage/dbconfig"
+	"github.com/nspcc-dev/neo-go/pkg/core/transaction"
+	"github.com/nspcc-dev/neo-go/pkg/neotest"
 	"github.com/nspcc-dev/neo-go/pkg/util"
 )
 
@@ -36,19 +40,21 @@ type noClose struct{ storage.Store }
 func (noClose) Close() error { return nil }
 
 type world struct {
-	t       *testing.T
-	net     *chainkit.Net
-	ssi     uint32
-	mtb     uint32
-	src     *core.Blockchain
-	gen     *histgen.Gen
-	blocks  []*block.Block // index h-1
-	raw     [][]byte
-	N, P    uint32
-	nodes   map[util.Uint256][]byte
-	flatP   [][3]string // source storage dump at height P
-	digests []chainkit.Digest
-	dir     string
+	t               *testing.T
+	net             *chainkit.Net
+	ssi             uint32
+	mtb             uint32
+	src             *core.Blockchain
+	gen             *histgen.Gen
+	blocks          []*block.Block // index h-1
+	raw             [][]byte
+	N, P            uint32
+	nodes           map[util.Uint256][]byte
+	flatP           [][3]string // source storage dump at height P
+	digests         []chainkit.Digest
+	dir             string
+	finding         string       // "" ordinary world; otherwise the scripted scenario of a listed (known) finding
+	probeTx, probed util.Uint256 // txvmstate world: the probing transaction and the transaction it asks about
 }
 
 func (w *world) protocol(c *config.Blockchain) {
@@ -88,6 +94,35 @@ func (w *world) build(n uint32, seed int64) error {
 	w.gen = histgen.New(w.t, w.net, w.src, seed, 8)
 	w.N = n
 	w.P = (n / w.ssi) * w.ssi
+	// A state-synchronised node has no block below P-MaxTraceableBlocks+1 and no execution results of the blocks it
+	// fetched; contracts can observe both (two listed findings). Ordinary worlds stay clear of them, two scripted
+	// worlds reproduce them.
+	w.gen.AvoidOldOracle, w.gen.NoVMStateProbe = true, true
+	switch w.finding {
+	case "txvmstate":
+		w.gen.Weights = map[string]int{"gas": 1}
+		w.gen.ScriptOldOracle(0) // deploy (3), designate (4), request (5, never answered)
+		a := w.gen.Accts[0]
+		w.gen.Script[w.P-2] = func() *transaction.Transaction {
+			return w.gen.Tx([]neotest.Signer{a}, w.gen.E.NativeHash(w.t, nativenames.Gas), "transfer", a.ScriptHash(), w.gen.Accts[1].ScriptHash(), int64(7), nil)
+		}
+		w.gen.Script[w.P+2] = func() *transaction.Transaction {
+			for i := len(w.gen.OldTxs) - 1; i >= 0; i-- {
+				if h := w.gen.OldTxs[i]; w.gen.TxHeight[h] == w.P-2 && len(w.gen.KVs) > 0 {
+					tx := w.gen.Tx([]neotest.Signer{a}, w.gen.KVs[0], "ledgerProbe", int64(w.P-2), h.BytesBE())
+					if tx != nil {
+						w.probeTx, w.probed = tx.Hash(), h
+					}
+					return tx
+				}
+			}
+			return nil
+		}
+	case "oracle":
+		w.gen.Weights = map[string]int{"gas": 1}
+		w.gen.AvoidOldOracle = false
+		w.gen.ScriptOldOracle(w.P + 2)
+	}
 	for h := uint32(1); h <= n; h++ {
 		b, err := w.gen.NextBlock(5)
 		if err != nil {
@@ -150,14 +185,17 @@ func guarded(f func() error) (err error, pan any) {
 	return f(), nil
 }
 
-func runWorld(t *testing.T, res *vh.Result, tr *vh.Trace, wi int, sched []step, r *rand.Rand) {
+func runWorld(t *testing.T, res *vh.Result, tr *vh.Trace, wi int, sched []step, r *rand.Rand, finding string) {
 	dir, err := os.MkdirTemp(os.Getenv("VERIF_WORK"), "c20s")
 	if err != nil {
 		t.Fatal(err)
 	}
 	defer os.RemoveAll(dir)
-	w := &world{t: t, net: chainkit.NewNet(5, 3), ssi: 4 + uint32(wi%3), mtb: 8 + uint32(wi%2)*4, dir: dir}
+	w := &world{t: t, net: chainkit.NewNet(5, 3), ssi: 4 + uint32(wi%3), mtb: 8 + uint32(wi%2)*4, dir: dir, finding: finding}
 	n := 3*w.ssi + 2 + uint32(r.Intn(int(2*w.ssi)))
+	if finding != "" {
+		w.ssi, w.mtb, n = 4, 8, 31
+	}
 	if len(sched) > 0 && sched[0].Op == "cfg" { // replay: fixed chain length
 		n = uint32(sched[0].N)
 	}
@@ -388,7 +426,19 @@ func runWorld(t *testing.T, res *vh.Result, tr *vh.Trace, wi int, sched []step, 
 		err, pan := guarded(func() error { return sk.bc.AddBlock(w.block(h)) })
 		d := chainkit.Compute(sk.bc)
 		same := err == nil && pan == nil && len(chainkit.Diff(d, w.digests[h-1])) == 0
-		tr.Emit(map[string]any{"event": "lockstep", "h": h, "ok": err == nil && pan == nil, "same": same, "err": fmt.Sprint(err, pan), "diff": chainkit.Diff(d, w.digests[h-1])})
+		ev := map[string]any{"event": "lockstep", "h": h, "ok": err == nil && pan == nil, "same": same, "err": fmt.Sprint(err, pan), "diff": chainkit.Diff(d, w.digests[h-1])}
+		if !same {
+			hh := h
+			if err != nil || pan != nil {
+				hh = h - 1 // the block was refused: explain the state it was offered to
+			}
+			diag := w.net.Explain(sk.bc, w.srcHook, hh, w.block) // information for the reader of a replay, not judged
+			ev["diag"] = diag
+			if g := w.ground(sk, diag, w.block(h), err != nil); g != "" {
+				ev["ground"] = g
+			}
+		}
+		tr.Emit(ev)
 		if !same {
 			lock = false
 			break
@@ -411,10 +461,66 @@ func TestDriver(t *testing.T) {
 	}
 	r := vh.Rand(20)
 	for i, s := range scheds {
-		runWorld(t, res, tr, i, s, r)
+		runWorld(t, res, tr, i, s, r, "")
+	}
+	// the scripted scenarios of the two listed findings (same delivery schedules as the first worlds)
+	for i, f := range []string{"txvmstate", "oracle"} {
+		if len(scheds) > i && vh.EnvInt("VERIF_FINDING_WORLDS", 1) == 1 {
+			runWorld(t, res, tr, 3000+i, scheds[i], r, f)
+			res.Inc("finding_worlds", 1)
+		}
 	}
 	tr.Close()
 	if err := res.Write(); err != nil {
 		t.Fatal(err)
 	}
+}
+
+// ground recognises, in the scripted world of a listed finding only, the difference that finding predicts: either in the
+// explained difference after the block (diag), or - when state roots travel in headers and the block itself was
+// refused - in the refused block's content.
+func (w *world) ground(sk *sink, diag []string, b *block.Block, refused bool) string {
+	switch w.finding {
+	case "txvmstate":
+		if refused {
+			for _, tx := range b.Transactions {
+				if tx.Hash() == w.probeTx && w.gen.TxHeight[w.probed] <= w.P {
+					return "tx-vmstate-of-block-fetched-by-state-sync"
+				}
+			}
+			return ""
+		}
+		n := 0
+		for _, d := range diag {
+			if strings.HasPrefix(d, "storage ") {
+				if !strings.Contains(d, "/6c6564:") { // the probe's own record "led"
+					return ""
+				}
+				n++
+			}
+		}
+		if n > 0 {
+			return "tx-vmstate-of-block-fetched-by-state-sync"
+		}
+	case "oracle":
+		hit := false
+		for _, d := range diag {
+			hit = hit || strings.Contains(d, "attrs[OracleResponse")
+		}
+		if refused {
+			for _, tx := range b.Transactions {
+				hit = hit || len(tx.GetAttributes(transaction.OracleResponseT)) > 0
+			}
+		}
+		if hit {
+			for _, rq := range w.gen.ReqTx {
+				_, _, e1 := w.src.GetTransaction(rq)
+				_, _, e2 := sk.bc.GetTransaction(rq)
+				if e1 == nil && e2 != nil {
+					return "oracle-response-original-tx-missing-after-state-sync"
+				}
+			}
+		}
+	}
+	return ""
 }
